@@ -430,6 +430,13 @@ impl Database {
                 while child_cursor.valid() {
                     let child_key = child_cursor.key()?.to_vec();
                     let child_value = child_cursor.value()?;
+                    if child_value.len() >= crate::mvcc::RecordHeader::SIZE
+                        && crate::mvcc::RecordHeader::from_bytes(child_value).is_deleted()
+                    {
+                        // a deleted child row references nothing
+                        child_cursor.advance()?;
+                        continue;
+                    }
                     let child_user_data = get_user_data(child_value);
                     let child_record = RecordView::new(child_user_data, &child_record_schema)?;
                     let child_row =
@@ -442,7 +449,10 @@ impl Database {
                                     s == child_schema && n == child_name && r == ref_col_idx
                                 })
                             {
-                                if matching_ref_idx == ref_col_idx && child_fk_val == del_val {
+                                if matching_ref_idx == ref_col_idx
+                                    && !child_fk_val.is_null()
+                                    && child_fk_val == del_val
+                                {
                                     match on_delete {
                                         Some(crate::schema::ReferentialAction::Cascade) => {
                                             keys_to_cascade.push(child_key.clone());
